@@ -6,6 +6,7 @@ import (
 	"bytes"
 	"fmt"
 	"runtime/debug"
+	"strings"
 	"sync/atomic"
 	"testing"
 
@@ -22,8 +23,8 @@ import (
 // and yield exactly the set, ascending, through NodeIterator.
 func TestVerif_C06_histories(t *testing.T) {
 	mc.Run(t, "C06", func(r *mc.R) {
-		defer debug.SetGCPercent(debug.SetGCPercent(400)) // allocation-heavy, tiny live heap
-		depthK1 := mc.Pick(r, 5, 7)
+		defer debug.SetGCPercent(debug.SetGCPercent(300)) // allocation-heavy, tiny live heap
+		depthK1 := mc.Pick(r, 6, 7)
 		depthK2 := mc.Pick(r, 4, 6)
 		r.Rule("BFS over operation sequences from the empty trie; alphabet = Update(k,v1|v2) x6 keys, Update(k,empty) x6, Delete(k) x6, " +
 			"hash+iterate, getall, copy, commit+reopen (28 ops); a state = (model set, committed set, white-box fingerprint of the live trie: " +
@@ -68,66 +69,20 @@ type c06BatchCase struct {
 	Prep  string `json:"prep"`  // state of the base trie: fresh (never hashed) / hashed / committed and reopened
 	Batch string `json:"batch"` // per key: s = not in batch, 1 = v1, 2 = v2, d = empty value
 	Order string `json:"order"` // order of the batch entries
-}
-
-// c06BaseModels returns the base sets of the batch enumeration.
-func c06BaseModels(all bool) []c06Model {
-	var out []c06Model
-	if all {
-		for i := 0; i < c06NModels; i++ {
-			out = append(out, c06ModelOf(i))
-		}
-		return out
-	}
-	// every subset of the keys with three value patterns: all short, all long, alternating
-	seen := map[c06Model]bool{}
-	for sub := 0; sub < 1<<c06NKeys; sub++ {
-		for pat := 0; pat < 3; pat++ {
-			var m c06Model
-			for k := 0; k < c06NKeys; k++ {
-				if sub>>k&1 == 1 {
-					switch pat {
-					case 0:
-						m[k] = 1
-					case 1:
-						m[k] = 2
-					default:
-						m[k] = uint8(1 + (k+sub)%2)
-					}
-				}
-			}
-			if !seen[m] {
-				seen[m] = true
-				out = append(out, m)
-			}
-		}
-	}
-	return out
-}
-
-func c06Alternating(m c06Model) bool {
-	sub := 0
-	for k, v := range m {
-		if v != 0 {
-			sub |= 1 << k
-		}
-	}
-	for k, v := range m {
-		if v != 0 && v != uint8(1+(k+sub)%2) {
-			return false
-		}
-	}
-	return true
+	Dup   string `json:"dup"`   // "" or "k<i>=<v>": a second entry for the first batch key, appended at the end (later entry wins)
 }
 
 // c06BatchPath predicts (for the outcome histogram only, never for the verdict) which
 // path UpdateBatch takes, from the documented rule.
-func c06BatchPath(a *c06Alpha, base c06Model, batch [c06NKeys]uint8) string {
+func c06BatchPath(a *c06Alpha, base c06Model, batch [c06NKeys]uint8, dupKey int, dupVal uint8) string {
 	n := 0
 	for _, b := range batch {
 		if b != 0 {
 			n++
 		}
+	}
+	if dupKey >= 0 {
+		n++
 	}
 	var child, del [16]bool
 	for k, v := range base {
@@ -151,7 +106,7 @@ func c06BatchPath(a *c06Alpha, base c06Model, batch [c06NKeys]uint8) string {
 		return "sequential:root-not-branch"
 	}
 	for k, b := range batch {
-		if b == 3 {
+		if b == 3 || (k == dupKey && dupVal == 3) {
 			del[a.Keys[k][0]>>4] = true
 		}
 	}
@@ -172,19 +127,19 @@ func c06BatchPath(a *c06Alpha, base c06Model, batch [c06NKeys]uint8) string {
 func TestVerif_C06_batches(t *testing.T) {
 	mc.Run(t, "C06", func(r *mc.R) {
 		allBases := mc.Pick(r, false, true)
-		defer debug.SetGCPercent(debug.SetGCPercent(400)) // allocation-heavy, tiny live heap
-		r.Rule("batches: alphabets KB (2-byte keys, 4 root children) and KB32 (32-byte keys) x base set (quick: all 64 subsets x 3 value patterns; " +
+		defer debug.SetGCPercent(debug.SetGCPercent(300)) // allocation-heavy, tiny live heap
+		r.Rule("batches: alphabets KB (2-byte keys, 4 root children) and KB32 (32-byte keys) x base set (quick: all 64 subsets x value patterns {alternating: hashed and committed, all long: committed}, KB32 alternating, committed, batches over {skip,v2,empty} only; " +
 			"thorough: all 729 value assignments) x base preparation {fresh, hashed, committed+reopened} x every batch in {skip,v1,v2,empty}^6 (4096) " +
-			"applied with one real UpdateBatch call (goroutines run free; the oracle does not depend on the schedule); distinct = distinct " +
+			"applied with one real UpdateBatch call (goroutines run free; the oracle does not depend on the schedule); plus, for KB with alternating " +
+			"base values, every non-empty batch with a second, different entry for its first key appended (later entry wins); distinct = distinct " +
 			"(alphabet, preparation, base set, resulting set). sets: every one of the 3^6 value assignments of K1,K2,KB,KB32 built by StackTrie " +
 			"(ascending), by a fresh Trie in ascending and descending insertion order and by StateTrie, each compared with the reference")
 		r.Assume("reference = independent Yellow-Paper MPT (own RLP, hex-prefix, embedding rule) + crypto.Keccak256")
-		r.Assume("UpdateBatch's goroutines are scheduled by the Go runtime (not enumerated here; the schedule exploration is a separate step); batch entries are distinct keys")
+		r.Assume("UpdateBatch's goroutines are scheduled by the Go runtime (not enumerated here; the schedule exploration is a separate step); batch entries are distinct keys except in the dup cases")
 		r.Bound("batch_space_per_base", 4096)
 		r.Bound("parallelUpdateThreshold", parallelUpdateThreshold)
 
 		bases := c06BaseModels(allBases)
-		r.Bound("bases", len(bases))
 		// "fresh" (no cached hash anywhere) is the least discriminating preparation: thorough only
 		preps := mc.Pick(r, []string{"hashed", "committed"}, []string{"fresh", "hashed", "committed"})
 		r.Bound("base_preparations", preps)
@@ -193,6 +148,7 @@ func TestVerif_C06_batches(t *testing.T) {
 			a    *c06Alpha
 			base c06Model
 			prep string
+			dup  bool // append a second, different entry for the first key of the batch
 		}
 		var shards []shard
 		for _, a := range alphas {
@@ -200,11 +156,21 @@ func TestVerif_C06_batches(t *testing.T) {
 				if !allBases && a.Name == "KB32" && !c06Alternating(b) {
 					continue // 32-byte keys: every leaf is a hashed node whatever the value; quick keeps one value pattern per subset
 				}
+				if !allBases && c06AllShort(b) {
+					continue // quick: bases whose whole trie is embedded in the root node are left to thorough
+				}
 				for _, p := range preps {
-					shards = append(shards, shard{a, b, p})
+					if !allBases && p == "hashed" && (a.Name == "KB32" || !c06Alternating(b)) {
+						continue // quick: the hashed preparation only for KB with alternating values
+					}
+					shards = append(shards, shard{a, b, p, false})
+				}
+				if a.Name == "KB" && c06Alternating(b) && (allBases || len(a.ref(b).leaves) >= 3) {
+					shards = append(shards, shard{a, b, "hashed", true})
 				}
 			}
 		}
+		r.Bound("shards(alphabet,base,preparation,dup)", len(shards))
 		r.Parallel(len(shards), func(si int) {
 			sh := shards[si]
 			a := sh.a
@@ -259,12 +225,35 @@ func TestVerif_C06_batches(t *testing.T) {
 						final[k] = 0
 					}
 				}
+				if !allBases && a.Name == "KB32" && strings.ContainsRune(string(desc), '1') {
+					continue // quick, 32-byte keys: both values give hashed leaves; only {skip, v2, empty}^6 (729 batches)
+				}
 				// entry order: ascending, or descending for odd batch numbers
 				order := "asc"
 				if bi&1 == 1 {
 					order = "desc"
 				}
-				c := c06BatchCase{a.Name, sh.base.String(), sh.prep, string(desc), order}
+				// duplicate entry: the first key of the batch (in entry order) gets a second entry with the
+				// next value of the cycle v1 -> v2 -> empty -> v1, appended last; the later entry wins
+				dupKey, dupVal, dupDesc := -1, uint8(0), ""
+				if sh.dup {
+					for i := 0; i < c06NKeys; i++ {
+						k := i
+						if order == "desc" {
+							k = c06NKeys - 1 - i
+						}
+						if batch[k] != 0 {
+							dupKey, dupVal = k, batch[k]%3+1
+							break
+						}
+					}
+					if dupKey < 0 {
+						continue // empty batch: nothing to duplicate
+					}
+					final[dupKey] = dupVal % 3
+					dupDesc = fmt.Sprintf("k%d=%c", dupKey, "s12d"[dupVal])
+				}
+				c := c06BatchCase{a.Name, sh.base.String(), sh.prep, string(desc), order, dupDesc}
 				r.Case(c, func() error {
 					if baseTrie == nil {
 						if err := mkBase(); err != nil {
@@ -284,13 +273,21 @@ func TestVerif_C06_batches(t *testing.T) {
 						keys = append(keys, a.Keys[k])
 						vals = append(vals, c06Vals[batch[k]%3])
 					}
+					if dupKey >= 0 {
+						keys = append(keys, a.Keys[dupKey])
+						vals = append(vals, c06Vals[dupVal%3])
+					}
 					if err := tr.UpdateBatch(keys, vals); err != nil {
 						return fmt.Errorf("UpdateBatch: %v", err)
 					}
 					return c06CheckRead(tr, a, final)
 				})
-				outcomes[c06BatchPath(a, sh.base, batch)]++
-				r.DistinctHash(mc.Hash64(a.Name + sh.prep + sh.base.String() + final.String()))
+				label := c06BatchPath(a, sh.base, batch, dupKey, dupVal)
+				if sh.dup {
+					label = "dup-entry/" + label
+				}
+				outcomes[label]++
+				r.DistinctHash(mc.Hash64(a.Name + sh.prep + dupDesc + sh.base.String() + final.String()))
 				if bi == 1+si%4095 && si%97 == 0 {
 					r.Sample(c)
 				}
